@@ -71,6 +71,7 @@ type batchScn struct {
 	cDetour       bool       // before every later run the concurrency is first set to another value, then to the run's
 	stopByRun     []bool     // stop-on-error mode of each run (builder method before the run)
 	cancelFromRun int        // the cancel spec applies to runs with at least this index (earlier runs are not cancelled)
+	negWait       bool       // the (negative) wait is configured as it is: WithWait(sc.wait) although sc.wait <= 0
 	sameSlice     bool       // prep hands back THE SAME slice object in every run ([]Result or []any), refilled in place with that run's items (a caller re-using its buffer)
 	ctxByRun      []int      // which context OBJECT each run receives (equal numbers: the same cancellable context again); only for scenarios whose last run alone is cancelled
 	feedback      bool       // repeated runs: the result slice post received becomes, AS IT IS, the items of the next run
@@ -420,7 +421,7 @@ func (b *BR) buildNode() (*flyt.BatchNodeBuilder, *flyt.SharedStore) {
 	if sc.stop {
 		nb = nb.WithBatchErrorHandling(false)
 	}
-	if sc.wait > 0 {
+	if sc.wait > 0 || sc.negWait {
 		nb = nb.WithWait(sc.wait)
 	}
 	store := flyt.NewSharedStore()
@@ -682,7 +683,12 @@ func (b *BR) onExec(ctx context.Context, v any, argIsErr bool) answer {
 	// ---- C08 usability: mutually dependent items
 	if contains(sc.barrier, i) && k == 0 {
 		b.arrived.Set(b.arrived.Get() + 1)
-		need := len(sc.barrier)
+		need := 0 // (the barrier items that exist in THIS run: runs of one node may differ in size)
+		for _, d := range sc.barrier {
+			if d < sc.n {
+				need++
+			}
+		}
 		core.Block("barrier", func() bool { return b.arrived.Peek() >= need })
 		b.arrived.Get()
 	}
